@@ -545,8 +545,11 @@ def numeric_check(ctx):
         if spec_acc:
             try:
                 want = spec_value(t)
-            except Exception:          # zero denominator: matches the pattern, is not a number; the reader must refuse it
-                spec_acc = model_acc = False
+            except Exception as e:
+                if "flow" in type(e).__name__:      # decimal.Overflow/Underflow: a number whose exponent is out of every range
+                    want = None                     # (8E2230349); still a number - only its value is not compared
+                else:                               # zero denominator: matches the pattern, is not a number; the reader must refuse it
+                    spec_acc = model_acc = False
         if a is not None and impl_acc != model_acc:
             mism.append("getSymOp(%r): implementation %s, regenerated pattern %s" % (op, "accepts" if impl_acc else "rejects",
                                                                                   "accepts" if model_acc else "rejects"))
